@@ -200,6 +200,19 @@ pub fn read_slice<'c>(src: &mut &'c [u8]) -> io::Result<Slice<'c>> {
 }
 
 fn resolve_mates(records: &mut [Record]) -> io::Result<()> {
+    // Alignment positions are 31-bit integers, which is what the template lengths are calculated
+    // with.
+    if records.iter().any(|record| {
+        record
+            .alignment_end()
+            .is_some_and(|end| i32::try_from(usize::from(end)).is_err())
+    }) {
+        return Err(io::Error::new(
+            io::ErrorKind::InvalidData,
+            "invalid alignment end",
+        ));
+    }
+
     let mut mate_indices: Vec<_> = records
         .iter()
         .enumerate()
@@ -349,10 +362,13 @@ fn calculate_template_length_chunk(
         alignment_end(record_alignment_start, record_read_length, record_features);
     let mate_alignment_end = alignment_end(mate_alignment_start, mate_read_length, mate_features);
 
-    let end = record_alignment_end
+    // Neither record covers a reference base, and both are placed at the first position.
+    let Some(end) = record_alignment_end
         .max(mate_alignment_end)
         .map(usize::from)
-        .expect("invalid end position");
+    else {
+        return 0;
+    };
 
     // "...the absolute value of TLEN equals the distance between the mapped end of the template
     // and the mapped start of the template, inclusively..."
